@@ -86,6 +86,33 @@ fn c13_valid(src: &mut Src, st: &mut Stats) -> PResult {
                         let last = d2.msg.section(sec).last();
                         ensure!(last == Some(&tc.rec), "C13 inserted-record-differs", "last record of section {} is {:?}, want {}", sec, last.map(|r| r.show()), tc.rec.show());
                         st.class("inserted");
+                        // the packet just produced is a valid packet too: insert further records into it
+                        let more = src.below(3);
+                        let mut model = d2.msg.clone();
+                        for k in 0..more {
+                            let tc2 = rrtext::gen_valid(src, &TextOpts { max_wire: 120, ..TextOpts::default() });
+                            let sec2 = if model.is_response() { src.range(1, 3) } else { 3 };
+                            let section2 = match sec2 {
+                                1 => Section::Answer,
+                                2 => Section::NameServers,
+                                _ => Section::Additional,
+                            };
+                            if model.to_wire_plain().len() + tc2.rec.to_wire().len() > 8192 {
+                                break;
+                            }
+                            match catch(|| pp.insert_rr_from_string(section2, &tc2.text).map_err(|e| e.to_string())) {
+                                Err(pm) => fail!(format!("C13 insert-panic {}", panic_sig(&pm)), "insert #{}: {} text={:?}", k + 2, pm, tc2.text),
+                                Ok(Err(e)) => fail!("C13 insert-of-valid-record-fails", "insert #{} {:?}: {:?}", k + 2, tc2.text, e),
+                                Ok(Ok(())) => {}
+                            }
+                            model.section_mut(sec2).push(tc2.rec.clone());
+                            let nb = pp.packet.clone().unwrap_or_default();
+                            match refdec::decode_strict(&nb) {
+                                Some(d3) => ensure!(d3.msg == model, "C13 inserted-record-differs", "after insert #{} into section {}: {}; first text {:?}", k + 2, sec2, model.diff(&d3.msg, false), show()),
+                                None => fail!("C13 packet-not-well-formed-after-insert", "after insert #{} (section {}) of {:?} following {:?} (section {}); packet={}", k + 2, sec2, tc2.text, show(), sec, hex_abbrev(&nb)),
+                            }
+                            st.class("inserted-again");
+                        }
                     }
                 }
             }
@@ -277,6 +304,7 @@ pub fn check_c13(ctx: &Ctx, known: &KnownFindings) -> Report {
         req.push(format!("damaged:{}", d));
     }
     req.push("inserted".into());
+    req.push("inserted-again".into());
     req.push("arbitrary".into());
     req.push("arbitrary:accepted".into());
     rep.required.extend(req);
